@@ -722,8 +722,16 @@ void cmb_process_stop(struct cmb_process *tgt, void *retval)
         return;
     }
 
-    /* Stop the underlying coroutine, set its exit value */
     struct cmi_coroutine *cp = (struct cmi_coroutine *)tgt;
+    if (tgt == cmb_process_current()) {
+        /* Stopping ourselves never returns here, clean up first */
+        cmi_process_cancel_awaiteds(tgt);
+        cmi_process_drop_resources(tgt);
+        wake_process_waiters(&(tgt->waiters), CMB_PROCESS_STOPPED);
+        cmi_coroutine_stop(cp, retval);
+    }
+
+    /* Stop the underlying coroutine, set its exit value */
     cmi_coroutine_stop(cp, retval);
 
     /* Clean up unfinished business */
